@@ -805,3 +805,111 @@ _targets_before_validate_symbol = targets
 
 def targets():      # noqa: F811
     return _targets_before_validate_symbol() + [target_validate_symbol()]
+
+
+
+def target_docstring_total():
+    """registry._set_element_docstring (a step of register_element): total for every well-formed definition -- ANY number of
+    parameters and sub-circuits including none, with and without units / descriptions -- so that a valid element is never refused
+    because of how its documentation is laid out; every parameter and sub-circuit symbol appears in the text, in order.
+    Real function on small definition records (the loop bodies keep no state from one definition to the next)."""
+    import itertools as _it
+    from types import SimpleNamespace as NS
+    from pyvc import overload as O
+    REG = "circuit/registry"
+
+    def run(sess: Session):
+        n_ok = 0
+        for n_par, n_sub, unit, descr in _it.product((0, 1, 3), (0, 1, 2), ("", "ohm"), ("", "Some text")):
+            pars = [NS(symbol=f" P{k}x ", unit=unit, description=descr, value=1.5 * (k + 1), fixed=bool(k % 2), lower_limit=0.0, upper_limit=float("inf")) for k in range(n_par)]
+            subs = [NS(symbol=f"S_{k}", unit=unit, description=descr, value=(None if k == 0 else NS(to_string=lambda: "[R]"))) for k in range(n_sub)]
+            Class = type("Cls", (), {"_name": "Name", "_symbol": "Xy", "_description": "Descr", "_equation": "R"})
+            ns = {"_process_description": lambda C: "processed", "_is_boolean": lambda x: isinstance(x, bool), "isinstance": isinstance, "float": float, "str": str, "len": len,
+                  "max": max, "min": min, "map": map, "TypeError": TypeError}
+            O.load(REG, ["_set_element_docstring"], ns)
+            tag = f"[{n_par} parameters, {n_sub} sub-circuits, unit={unit!r}, description={'yes' if descr else 'no'}]"
+            try:
+                ns["_set_element_docstring"](Class, pars, subs)
+                err = None
+            except Exception as ex:       # noqa: BLE001
+                err = f"{type(ex).__name__}: {ex}"
+            ob = sess.check("exc-free", [], z3.BoolVal(err is None), 0, label=f"{tag}a well-formed definition is documented without an exception")
+            if err:
+                ob.detail = err
+                continue
+            n_ok += 1
+            doc = Class.__doc__ or ""
+            pos = [doc.find(x.symbol.strip()) for x in pars + subs]
+            sess.check("post", [], z3.BoolVal(all(p_ >= 0 for p_ in pos) and pos == sorted(pos) and "Xy" in doc), 0, label=f"{tag}the text names the element symbol and every parameter / sub-circuit, in order")
+        sess.check("cover", [], z3.BoolVal(n_ok >= 30), 0, label=f"definitions documented: {n_ok}")
+    return (f"{REG}:_set_element_docstring", REG, "_set_element_docstring", run)
+
+
+_targets_before_docstring = targets
+
+
+def targets():      # noqa: F811
+    return _targets_before_docstring() + [target_docstring_total()]
+
+
+
+def target_subcircuit_keywords():
+    """Parser.subcircuit: in sub-circuit position the words `zero` / `short` (a short circuit) and `inf` / `open` (an open circuit)
+    are keywords -- exactly these four spellings.  Any other identifier, including the legal element symbols `Open`, `Short`,
+    `Zero`, `Inf` a user may register, is read as an element (list) like everywhere else, so every registered symbol stays usable
+    inside container elements.  Real method (helpers compiled from the tree) on a small token list; `main_loop` is a stand-in
+    that consumes one token and pushes one element."""
+    from pyvc import overload as O
+    PA = "circuit/parser"
+
+    def run(sess: Session):
+        class Tok:
+            def __init__(self, value=None):
+                self.value = value
+        kinds = {n: type(n, (Tok,), {}) for n in ("Identifier", "Comma", "Colon", "RCurly", "LBracket", "RBracket", "LParen", "RParen", "Token")}
+
+        class El:
+            def __init__(self, sym):
+                self.sym = sym
+
+        class Conn:
+            def __init__(self, elements):
+                self.elements = list(elements)
+        outcomes = set()
+        words = [("zero", "short-circuit"), ("short", "short-circuit"), ("inf", "open"), ("open", "open")] + [(w, "element") for w in ("Open", "Short", "Zero", "Inf", "Opena", "R", "Zero_1", "Shorty", "Ls")]
+        for word, want in words:
+            ns = dict(kinds)
+            ns.update({"Series": Conn, "Parallel": Conn, "Element": El, "Connection": Conn, "isinstance": isinstance, "type": type, "len": len, "InsufficientTokens": type("InsufficientTokens", (Exception,), {}),
+                       "TypeError": TypeError})
+            looped = []
+
+            class Me(O.auto_methods(PA, "Parser", ns)):
+                def main_loop(self):
+                    tok = self._tokens.pop(0)
+                    looped.append(tok.value)
+                    self.push_stack(El(tok.value))
+            me = Me()
+            me._tokens = [kinds["Identifier"](word), kinds["RCurly"]("}")]
+            me._stack = ["below"]
+            O.load(PA, ["Parser.subcircuit"], ns)
+            try:
+                out = ns["subcircuit"](me, kinds["Identifier"]("X_1"))
+            except Exception as ex:      # noqa: BLE001
+                out = ex
+            if want == "short-circuit":
+                ok = isinstance(out, Conn) and out.elements == [] and not looped and len(me._tokens) == 1
+            elif want == "open":
+                ok = out is None and not looped and len(me._tokens) == 1
+            else:
+                ok = isinstance(out, Conn) and [getattr(e, "sym", None) for e in out.elements] == [word] and looped == [word] and len(me._tokens) == 1
+            outcomes.add(want)
+            sess.check("post", [], z3.BoolVal(bool(ok) and me._stack == ["below"]), 0, label=f"[{word!r} in sub-circuit position]read as {'the keyword for a ' + want if want != 'element' else 'an element, not as a keyword'}; the stack below is untouched")
+        sess.check("cover", [], z3.BoolVal(outcomes == {"short-circuit", "open", "element"}), 0, label="all three readings reached")
+    return (f"{PA}:Parser.subcircuit [keywords]", PA, "Parser.subcircuit", run)
+
+
+_targets_before_keywords = targets
+
+
+def targets():      # noqa: F811
+    return _targets_before_keywords() + [target_subcircuit_keywords()]
